@@ -90,10 +90,17 @@ type rsCfg struct {
 	pki       bool
 	id        byte // 0 | i | u
 	caddyfile bool
+	broken    bool // (pushes only) a Caddyfile the adapter refuses
 }
 
 func (c rsCfg) token() string {
 	t := c.n + string(c.persist)
+	if c.caddyfile {
+		t = "c" + t
+		if c.broken {
+			t = "c" + c.n + "b"
+		}
+	}
 	if c.fail {
 		t += "x"
 	}
@@ -108,6 +115,9 @@ func (c rsCfg) token() string {
 
 func parseRSCfg(s string) (rsCfg, bool) {
 	if strings.HasPrefix(s, "c") {
+		if n := strings.TrimSuffix(s[1:], "b"); n != s[1:] && n != "" && strings.Trim(n, "0123456789") == "" {
+			return rsCfg{n: n, persist: 'd', caddyfile: true, broken: true}, true
+		}
 		c, ok := parseRSCfg(s[1:])
 		if !ok || c.fail || c.pki || c.id != 0 || c.persist == 'p' {
 			return rsCfg{}, false
@@ -205,12 +215,12 @@ func parseRS(f []string) (rsCase, bool) {
 		switch {
 		case len(a) == 1 && a[0] == "K":
 			c.evs = append(c.evs, rsEvent{kind: 'K'})
-		case len(a) == 2 && a[0] == "P":
+		case len(a) == 2 && len(a[0]) == 1 && strings.Contains("PFGMXY", a[0]):
 			cfg, ok := parseRSCfg(a[1])
-			if !ok || cfg.caddyfile {
-				return c, false // only JSON is pushed
+			if !ok {
+				return c, false
 			}
-			c.evs = append(c.evs, rsEvent{kind: 'P', cfg: cfg})
+			c.evs = append(c.evs, rsEvent{kind: a[0][0], cfg: cfg})
 		case len(a) == 2 && (a[0] == "Q" || a[0] == "I"):
 			cfg, ok := parseRSCfg(a[1])
 			if !ok || cfg.caddyfile || cfg.pki {
@@ -219,7 +229,7 @@ func parseRS(f []string) (rsCase, bool) {
 			c.evs = append(c.evs, rsEvent{kind: a[0][0], cfg: cfg})
 		case len(a) == 3 && a[0] == "S" && (a[1] == "r" || a[1] == "-"):
 			cfg, ok := parseRSCfg(a[2])
-			if !ok || cfg.fail {
+			if !ok || cfg.fail || cfg.broken {
 				return c, false
 			}
 			c.evs = append(c.evs, rsEvent{kind: 'S', resume: a[1] == "r", cfg: cfg})
@@ -306,6 +316,9 @@ func (c rsCfg) caddyfileText(sock string) []byte {
 	sb.WriteString("{\n\tadmin unix/" + sock + " {\n\t\torigins n" + c.n + ".c14.test\n\t}\n")
 	if c.persist == 'n' {
 		sb.WriteString("\tpersist_config off\n")
+	}
+	if c.broken {
+		sb.WriteString("\tc14_no_such_global_option on\n")
 	}
 	sb.WriteString("}\n")
 	return []byte(sb.String())
@@ -542,7 +555,7 @@ func runRS(line string, f []string) core.Outcome {
 			}
 			kill()
 			outs = append(outs, "K"+state())
-		case 'P', 'Q', 'I':
+		case 'P', 'F', 'G', 'M', 'X', 'Y', 'Q', 'I':
 			kind := string(ev.kind)
 			if proc == nil {
 				outs = append(outs, kind+"=norun"+state())
@@ -550,8 +563,38 @@ func runRS(line string, f []string) core.Outcome {
 			}
 			runTokBefore, _ := running()
 			method, uri, body := http.MethodPost, "/load", ev.cfg.json(sock)
+			hdr := http.Header{"Content-Type": []string{"application/json"}}
+			isLoad := strings.ContainsRune("PFGMXY", rune(ev.kind))
+			refusedEarly := strings.ContainsRune("MXY", rune(ev.kind)) // answered before caddy.Load
+			if isLoad {
+				// the /load endpoint: adapter by Content-Type, forced reload by Cache-Control
+				if ev.cfg.caddyfile {
+					body = ev.cfg.caddyfileText(sock)
+					hdr.Set("Content-Type", "text/caddyfile")
+					tags["push:caddyfile-body"] = true
+				}
+				switch ev.kind {
+				case 'F':
+					hdr.Set("Cache-Control", "must-revalidate")
+					tags["push:must-revalidate"] = true
+				case 'G':
+					hdr.Set("Cache-Control", "no-cache, must-revalidate")
+					tags["push:cache-control-list"] = true
+				case 'M':
+					method = http.MethodPut
+					tags["push:wrong-method"] = true
+				case 'X':
+					hdr.Set("Content-Type", "text/c14nosuchadapter")
+					tags["push:unknown-adapter"] = true
+				case 'Y':
+					hdr.Set("Content-Type", "c14malformed")
+					hdr.Set("Cache-Control", "must-revalidate")
+					tags["push:malformed-content-type"] = true
+				}
+			}
+			inoBefore, existedBefore := inodeOf(pathA)
 			expect := ev.cfg
-			if ev.kind != 'P' {
+			if !isLoad {
 				// a sub-path write: only the app object is replaced
 				method, uri = http.MethodPatch, "/config/apps/c14probe"
 				if ev.kind == 'I' {
@@ -563,8 +606,7 @@ func runRS(line string, f []string) core.Outcome {
 				}
 				tags["push:"+kind] = true
 			}
-			resp, err := caddycmd.AdminAPIRequest(adminAddr, method, uri, http.Header{"Content-Type": []string{"application/json"}},
-				strings.NewReader(string(body)))
+			resp, err := caddycmd.AdminAPIRequest(adminAddr, method, uri, hdr, strings.NewReader(string(body)))
 			ev.cfg = expect
 			res := "rej"
 			if err == nil {
@@ -597,12 +639,46 @@ func runRS(line string, f []string) core.Outcome {
 					}
 				}
 			}
-			if ev.kind == 'P' && (res == "ok") == ev.cfg.fail {
+			inoAfter, existsAfter := inodeOf(pathA)
+			written := existsAfter && (!existedBefore || inoAfter != inoBefore)
+			if written {
+				tags["push:autosave-rewritten"] = true
+			}
+			if res == "ok" && ev.cfg.persist != 'n' {
+				fb, _ := os.ReadFile(pathA)
+				if ev.cfg.caddyfile {
+					// what is saved is the ADAPTED document: JSON, never the Caddyfile text that was sent
+					var doc map[string]any
+					if string(fb) == string(body) || json.Unmarshal(fb, &doc) != nil {
+						fail("rs-autosave-holds-unadapted-body",
+							fmt.Sprintf("event %d of %q: a Caddyfile was pushed to /load and accepted; the autosave file is not the adapted JSON document (%d bytes, starts %q)",
+								i+1, line, len(fb), firstBytes(fb, 24)))
+					}
+				}
+				// a push that is not byte-identical to the running document, and every forced one, re-writes the file
+				if (ev.kind == 'F' || runTokBefore != ev.cfg.token()) && !written {
+					fail("rs-returned-push-did-not-rewrite-autosave",
+						fmt.Sprintf("event %d of %q: %s %s of %s (running before: %s, Cache-Control %q) returned 200 with persistence on, but the autosave file was not written again",
+							i+1, line, method, uri, ev.cfg.token(), runTokBefore, hdr.Get("Cache-Control")))
+				}
+			}
+			if res != "ok" && written {
+				fail("rs-refused-push-wrote-autosave",
+					fmt.Sprintf("event %d of %q: %s %s of %s was refused, yet the autosave file was written", i+1, line, method, uri, ev.cfg.token()))
+			}
+			if refusedEarly && res == "ok" {
+				fail("rs-load-endpoint-accepted-request-it-must-refuse",
+					fmt.Sprintf("event %d of %q: %s %s with Content-Type %q returned 200", i+1, line, method, uri, hdr.Get("Content-Type")))
+			}
+			if isLoad && !refusedEarly && (res == "ok") == (ev.cfg.fail || ev.cfg.broken) {
 				fail("harness-probe-config-verdict", fmt.Sprintf("event %d of %q: push of %s: %s", i+1, line, ev.cfg.token(), res))
 			}
 			rr := ""
 			if res == "ok" {
 				rr = checkRoot(i, ev.cfg.token())
+			}
+			if res == "ok" && written {
+				res += "!"
 			}
 			outs = append(outs, kind+"="+res+rr+state())
 		case 'S':
@@ -713,4 +789,23 @@ func runRS(line string, f []string) core.Outcome {
 	}
 	sort.Strings(o.Tags)
 	return o
+}
+
+// inodeOf: the inode of a file (a rename over it installs another one)
+func inodeOf(p string) (uint64, bool) {
+	fi, err := os.Stat(p)
+	if err != nil {
+		return 0, false
+	}
+	if st, ok := fi.Sys().(*syscall.Stat_t); ok {
+		return st.Ino, true
+	}
+	return 0, true
+}
+
+func firstBytes(b []byte, n int) string {
+	if len(b) > n {
+		b = b[:n]
+	}
+	return string(b)
 }
